@@ -1,6 +1,16 @@
 # per-property claim texts used by mk_manifest.py
 NA = {}
 CLAIMS = {
+ 'C16': {
+  'technique': 'Coq proofs of state_dict / load_state_dict round trips, deep-copy isolation on a heap model, and resumed-run = uninterrupted-run by induction over batch sequences, on code regenerated from accountant.py / privacy_engine.py; real cut-point runs',
+  'text': ('PARTIAL. Proved on the Gallina generated from IAccountant.state_dict / load_state_dict and PrivacyEngine.save_checkpoint / load_checkpoint: the saved history is a deep copy '
+           '(isolated from later in-place steps, explicit heap model); load(state_dict) restores history and mechanism; None / empty / key-less / other-mechanism states raise ValueError; '
+           'load_checkpoint(save_checkpoint(y)) restores module parameters, history (hence epsilon), inner optimizer state and scheduler counters; for EVERY batch sequence, cut point, inner '
+           'optimizer, accountant step and scheduler step function the resumed run equals the uninterrupted run provided the live noise_multiplier / max_grad_norm at the cut equal the fresh '
+           'values. The full statement is FALSE of the code when a scheduler moved them (Findings/C16.v, known finding). Real engines are check-pointed at every cut of generated histories '
+           '(rdp/gdp/prv x SGD/momentum/Adam x schedulers x hooks/functorch/ghost) and compared with uninterrupted runs; checkpoint keys and load guards are compared with the generated model. '
+           'torch.save/load (pickle) and torch state_dicts are modelled as exact.'),
+ },
  'C20': {
   'technique': 'Coq proofs over R of the update rule, count non-interference and the sigma-split identity on expressions regenerated from adaclipoptimizer.py; recorded-noise runs on the real optimizer',
   'text': ('PARTIAL. Proved for the expressions generated from AdaClipDPOptimizer (update_max_grad_norm, the noise-multiplier formula of __init__): the new norm is '
